@@ -48,7 +48,7 @@ def _valid_snapshot(res, m, s, N, strain, rep, regime):
 def run(ctx, res):
     rng = np.random.default_rng(ctx["seed"] + 101)
     M = impl._minerals
-    n_sc = 16 if not ctx["thorough"] else 160
+    n_sc = 24 if not ctx["thorough"] else 168
     res.rule = ("update histories: (phase,fabric) x accepted regime {0,1,4,6,7} x L(t,x) family (incl. non-zero trace, vorticity, time/space "
                 "dependence) x initial texture {random, clustered, girdle, single, non-uniform} x 1..4 (thorough up to 100) update calls x "
                 "M* in [0,200], chi in [0,0.9], lambda*>=0, n in 2..16 (thorough ..200); every stored snapshot is checked; non-trivial = at "
@@ -58,9 +58,14 @@ def run(ctx, res):
         many = ctx["thorough"] and k % 16 == 0
         sc = solver.make_scenario(rng, k, nmax=16 if not ctx["thorough"] else (200 if k % 7 == 0 else 40),
                                   regimes=solver.ACCEPTED_REGIMES, max_updates=4 if not many else 100,
+                                  fields=solver.EDGE_FIELD_KINDS + solver.FIELD_KINDS,
                                   span=(0.2, 1.0) if not many else (1.0, 3.0))
         if many:
             sc["n_updates"] = int(rng.integers(30, 101))
+        if sc["field_kind"] in solver.EDGE_FIELD_KINDS and k % 3 != 2:
+            sc["regime"] = 4 if k % 2 else 6   # the degenerate forcings matter most where the kernel divides by the strain rate
+        if sc["field_kind"] == "ends_vanish":
+            sc["field"].w = float(np.pi * sc["n_updates"] / sc["span"])
         m = solver.build_mineral(sc)
         n_before = len(m.orientations)
         ts = solver.times_of(sc)
@@ -88,6 +93,7 @@ def run(ctx, res):
         res.nontrivial(("c01", k, sc["tex_seed"]))
         res.count(f"regime{sc['regime']}")
         res.count("tex:" + sc["tex"])
+        res.count("field:" + sc["field_kind"])
         res.count("updates", sc["n_updates"])
         # correspondence: write-backs and stored snapshots through the model
         if k % 2 == 0 or not ctx["thorough"]:
@@ -104,7 +110,7 @@ def run(ctx, res):
         _, _, fbad = U.extract_vars(y.copy(), 2)
     res.count("extract_vars 0/0 witness reproduces NaN" if np.isnan(fbad).all() else "extract_vars 0/0 witness: finite")
     # default-constructed mineral: valid and reproducible from its seed (same process and a second process)
-    for seed in ([11, 12] if not ctx["thorough"] else list(range(20, 30))):
+    for seed in ([0, 1, 12, 2**32 - 1] if not ctx["thorough"] else [0, 1, 2**32 - 1] + list(range(20, 30))):
         n = int(rng.integers(2, 60))
         a = M.Mineral(n_grains=n, seed=seed)
         b = M.Mineral(n_grains=n, seed=seed)
